@@ -319,7 +319,7 @@ def sideStateOf : Char → Option SideState
   | 'o' => some .ok
   | 'x' => some .openRefused
   | 'n' => some .openRefused
-  | 'b' => some .openRefused   -- any other Open error on an existing regular file: `mapDirOpenError` turns it into not-exist
+  | 'b' => some .openFatal
   | _ => none
 
 def handleSc (order faults ae enc method etag : String) : String :=
